@@ -286,6 +286,17 @@ def jsonable(o):
     return repr(o)
 
 
+def out_dir(proof):
+    """where evidence and replays go: /verif for a real run (proof leg included, against /repo itself); a scratch directory
+    for debugging runs (--no-proof) and for runs against another tree (VERIF_REPO = a seeded change), so that the committed
+    evidence always describes /verif run against /repo"""
+    if os.environ.get('VERIF_OUT'):
+        return pathlib.Path(os.environ['VERIF_OUT'])
+    if proof.theorems == ['(skipped)'] or REPO != pathlib.Path('/repo'):
+        return pathlib.Path(tempfile.gettempdir()) / f'verif_scratch_out_{os.getpid()}'
+    return VERIF
+
+
 def finish(run: Run, proof: Proof, level='proof', note_partial=None) -> int:
     """decide, write evidence (+ replay on violation), print the protocol lines, return the exit status"""
     pid = run.pid
@@ -308,13 +319,14 @@ def finish(run: Run, proof: Proof, level='proof', note_partial=None) -> int:
         broken.append('model-driver')
     status = 0
     replay_path = None
-    rdir0 = VERIF / 'replays' / pid
+    out = out_dir(proof)
+    rdir0 = out / 'replays' / pid
     if rdir0.exists() and run.only is None:
         for old in rdir0.glob('*.json'):
             old.unlink()  # replays describe the latest run only
     if unlisted or broken:
         status = 1
-        rdir = VERIF / 'replays' / pid
+        rdir = out / 'replays' / pid
         rdir.mkdir(parents=True, exist_ok=True)
         if unlisted:
             f = unlisted[0][0]
@@ -341,7 +353,8 @@ def finish(run: Run, proof: Proof, level='proof', note_partial=None) -> int:
         replay_path = rdir / f'{name}.json'
         replay_path.write_text(json.dumps(replay, indent=1, default=jsonable))
         tail = '' if unlisted else ' no-failing-input-found'
-        print(f'VIOLATION property={pid} replay={replay_path.relative_to(VERIF)}{tail}')
+        shown = replay_path.relative_to(VERIF) if out == VERIF else replay_path
+        print(f'VIOLATION property={pid} replay={shown}{tail}')
     coverage = dict(
         obligations=proof.obligations, discharged=proof.discharged,
         checker_cmd=f'cd lean && lake build Homonim.Props.{pid} && lake env lean .lake/audit/{pid}.lean  '
@@ -358,8 +371,8 @@ def finish(run: Run, proof: Proof, level='proof', note_partial=None) -> int:
         assumptions=run.assumptions or TRUSTED_BASE[3:], wall_s=round(time.time() - run.t0, 2),
         violations=len(unlisted) + (1 if (broken and not unlisted) else 0)
     )
-    (VERIF / 'evidence').mkdir(exist_ok=True)
-    (VERIF / 'evidence' / f'{pid}.json').write_text(json.dumps(ev, indent=1, default=jsonable))
+    (out / 'evidence').mkdir(parents=True, exist_ok=True)
+    (out / 'evidence' / f'{pid}.json').write_text(json.dumps(ev, indent=1, default=jsonable))
     if run.tmp is not None:
         shutil.rmtree(run.tmp, ignore_errors=True)
     print(
